@@ -77,9 +77,12 @@ pub fn run(ctx: &mut Ctx) {
   let mut evaluations = 0u64;
   let mut steps = 0u64;
   let mut skipped_halt_pending = 0u64;
+  let mut held_cases = 0u64;
   let mut dispatches = 0u64;
   let mut transitions = std::collections::HashSet::<u32>::new();
-  let pendings: [(u8, u8); 3] = [(0x00, 0x1f), (0x04, 0x1f), (0x04, 0x00)];
+  // (IF, IE, a direction button held down with the direction group selected: a held button is
+  // no interrupt request - the request was collected long ago - and must wake nothing)
+  let pendings: [(u8, u8, bool); 4] = [(0x00, 0x1f, false), (0x04, 0x1f, false), (0x04, 0x00, false), (0x00, 0x0f, true)];
   let mut seq_index = 0u64;
   for len in 1..=max_len {
     let total = 8u64.pow(len as u32);
@@ -112,7 +115,7 @@ pub fn run(ctx: &mut Ctx) {
       }
       for ime0 in 0..3u8 {
         for run0 in 0..3u8 {
-          for &(if0, ie0) in pendings.iter() {
+          for &(if0, ie0, held) in pendings.iter() {
             evaluations += 1;
             // fresh devices often enough that the LCD (which starts 4560 clocks
             // before its next event) never raises a request on its own: one
@@ -121,6 +124,15 @@ pub fn run(ctx: &mut Ctx) {
               core.memory.io = IO::new();
             }
             core.memory.oam_dma = None;
+            if held {
+              core.memory.io.joypad.set_value(0x20);
+              core.memory.io.joypad.press_button(crate::devices::joypad::Button::Right);
+              let _ = core.memory.io.joypad.get_interrupt();
+              held_cases += 1;
+            } else {
+              core.memory.io.joypad.release_button(crate::devices::joypad::Button::Right);
+              let _ = core.memory.io.joypad.get_interrupt();
+            }
             core.memory.io.interrupt_flag = InterruptFlag::new(if0);
             core.memory.io.interrupt_mask = ie0;
             core.interrupts_enabled = support::ime_from(ime0);
@@ -305,6 +317,7 @@ pub fn run(ctx: &mut Ctx) {
     ctx.distinct_key(hash_words(&[99, *t as u64]));
   }
   ctx.count("evaluations", evaluations);
+  ctx.count("cases-with-a-button-held-down", held_cases);
   ctx.count("steps-compared", steps);
   ctx.count("dispatches-expected", dispatches);
   ctx.count("excluded:halt-with-pending-interrupt", skipped_halt_pending);
